@@ -343,6 +343,7 @@ impl ThreadCtx {
     }
 
     fn run_op(&mut self, op: &TOp) {
+        self.bump("ops");
         // Keeping a reader alive across another call on the same thread is documented misuse.
         if self.reader.is_some() && !matches!(op, TOp::ReaderCheck | TOp::ReaderClose) {
             self.reader = None;
@@ -822,7 +823,11 @@ fn run_case_inner(cfg: &Cfg, prog: &Program, stats: &mut Stats, dir: &std::path:
         let _ = h.join();
     }
     for (k, v) in counters.lock().unwrap().iter() {
-        stats.add(k, *v);
+        if k == "ops" {
+            stats.ops += *v;
+        } else {
+            stats.add(k, *v);
+        }
     }
     // a panic inside library code on a controlled thread
     if let Some((tid, msg)) = panics.first() {
@@ -1059,6 +1064,39 @@ impl W5Check {
                             _ => TOp::FlushRegion { r },
                         });
                     }
+                }
+            }
+            _ if nthreads >= 3 && rng.chance(1, 3) => {
+                // C11 templates: triples whose lock sets form the cycles listed in DESIGN appendix A
+                let rd = |rng: &mut Rng| TOp::VRead { v: 0, how: *rng.pick(&[0u8, 3, 2]), a: rng.next() as usize >> 16, b: rng.next() as usize >> 16 };
+                match rng.below(3) {
+                    0 => {
+                        cfg.vec_kinds = vec![2 + rng.below(2), 9, 9];
+                        cfg.prefix = *rng.pick(&[2047usize, 2048, 5]);
+                        threads[0].push(TOp::VPush { n: *rng.pick(&[1usize, 2049, 40_000]) });
+                        threads[0].push(TOp::VWrite);
+                        threads[1].push(rd(&mut rng));
+                        threads[1].push(rd(&mut rng));
+                        threads[2].push(TOp::Append { r: rng.below(2), len: 300_000, tag: tag.wrapping_add(2) });
+                    }
+                    1 => {
+                        threads[0].push(TOp::Append { r: 0, len: 10, tag: tag.wrapping_add(2) });
+                        threads[0].push(TOp::FlushRegion { r: 0 });
+                        threads[1].push(TOp::Compact);
+                        threads[2].push(TOp::Append { r: rng.below(2), len: 300_000, tag: tag.wrapping_add(4) });
+                    }
+                    _ => {
+                        cfg.vec_kinds = vec![2 + rng.below(2), 9, 9];
+                        cfg.crossover = 0;
+                        cfg.prefix = *rng.pick(&[2047usize, 2048, 5]);
+                        threads[0].push(TOp::VPush { n: *rng.pick(&[1usize, 2049, 40_000]) });
+                        threads[0].push(TOp::VWrite);
+                        threads[1].push(rd(&mut rng));
+                        threads[2].push(TOp::Compact);
+                    }
+                }
+                for th in threads.iter_mut().skip(3) {
+                    th.push(gen_region_op(&mut rng, &mut tag, nthreads, 3));
                 }
             }
             _ => {
